@@ -68,7 +68,7 @@ ASSUMPTIONS = ['"own size" is sys.getsizeof(value, 0), the accounting the option
                'N + 1 pulls, so templates with two sequence arguments use two sources',
                'sized Sequence() positions cannot receive a lazy source and are not source positions']
 BOUNDS = {
-    'quick': '(a) all definitions x source positions x corpus x 2 source flavours x N in {0,1,2,5}; '
+    'quick': '(a) all definitions x source positions x corpus x 3 source flavours (integers, pairs, empty lists) x N in {0,1,2,5}; '
              '(b) depth <= 3, N in {-1,0,1,2,5} x 4 conversion combos; '
              '(c) chains of <= 2 steps x base sizes {0,1,2,10,1000} x Q in {200,1000,10000} (+ no-quota control), '
              'chains whose unconstrained length exceeds 2e6 are outside the space; '
@@ -148,7 +148,9 @@ def _puller(source):
     return {'function': '?', 'file': '?', 'line': 0, 'param': None, 'code': None}
 
 
-FLAVOURS = {'int': None, 'pair': lambda i: (i, i)}
+# 'empty': an endless source of EMPTY collections - a consumer that looks into its elements (flatten, selectMany)
+# finds nothing to hand on, so no downstream limit ever counts anything: only a limit on the pulls themselves ends it
+FLAVOURS = {'int': None, 'pair': lambda i: (i, i), 'empty': lambda i: ()}
 
 
 # ---------------------------------------------------------------------------
@@ -453,7 +455,7 @@ def job_limit(tier, k, nchunks):
     _safety()
     res = Result()
     for text in limit_texts()[k::nchunks]:     # strided: similar cost per job
-        for flavour in ('int', 'pair'):
+        for flavour in ('int', 'pair', 'empty'):
             for n in NS[tier]:
                 case = {'kind': 'limit', 'text': text, 'flavour': flavour, 'n': n}
                 core.CURRENT_CASE[0] = case
